@@ -4,6 +4,8 @@
 // evaluated first; the real find_pdu<T>/tins_cast<T*> are only executed when that is safe
 // (a wrong static_cast would itself be UB), and their results are compared with dynamic_cast.
 #include "verif.h"
+#include "inputs.h"
+#include "pktgen.h"
 #include <tins/tins.h>
 #include <tins/pktap.h>
 #include <tins/loopback.h>
@@ -19,7 +21,7 @@ struct TDesc {
     void* (*dyn)(PDU*); void* (*find)(PDU*); void* (*cast)(PDU*); bool (*rfind_throws)(PDU*);
     void* (*dyn_cached)(PDU*);   // for T = PDUCacher<X>: dynamic_cast<X*>
 };
-struct KDesc { std::string name; std::function<PDU*()> make; void* (*find_own)(PDU*); void* (*cast_own)(PDU*); void* (*dyn_own)(PDU*); bool cacher; std::function<PDU*()> make_cached; };
+struct KDesc { const std::type_info* ti = nullptr; std::function<PDU*(const u8*, u32)> from_bytes; std::string name; std::function<PDU*()> make; void* (*find_own)(PDU*); void* (*cast_own)(PDU*); void* (*dyn_own)(PDU*); bool cacher; std::function<PDU*()> make_cached; };
 static std::vector<TDesc> Ts; static std::vector<KDesc> Ks; static std::vector<std::string> abstract_or_unmakeable;
 
 template <class T> void add_T(const char* name, std::true_type) {
@@ -59,11 +61,15 @@ template <class K, bool ok> struct CacherOf { static void add(const std::string&
 } };
 template <class K> struct CacherOf<K, false> { static void add(const std::string&, int) {} };
 
+template <class K> PDU* parse_as(const u8* b, u32 n, std::true_type) { return new K(b, n); }
+template <class K> PDU* parse_as(const u8*, u32, std::false_type) { return nullptr; }
 template <class K> void add_K(const char* name, int concrete, int defctor) {
     add_T<K>(name, has_flag<K>());
     if (!concrete || std::is_abstract<K>::value) { abstract_or_unmakeable.push_back(name); return; }
     KDesc d; d.name = name; d.cacher = false;
     d.make = [defctor]() -> PDU* { return Maker<K>::go(defctor); };
+    d.ti = &typeid(K);
+    d.from_bytes = [](const u8* b, u32 n) -> PDU* { return parse_as<K>(b, n, std::integral_constant<bool, std::is_constructible<K, const uint8_t*, uint32_t>::value>()); };
     add_own<K>(d, has_flag<K>());
     Ks.push_back(d);
     CacherOf<K, std::is_copy_constructible<K>::value && !std::is_abstract<K>::value && has_flag<K>::value>::add(name, defctor);
@@ -123,12 +129,70 @@ static void run_K(const KDesc& kd) {
     delete cached; delete k;
 }
 
+// ---- objects whose header fields are not the defaults --------------------------------------------------------
+// The pairs sweep uses default-constructed objects. Whether a search/cast may succeed must not depend on what the
+// object holds, so the same rule is applied to every layer of objects in other states: parsed from bytes (seeds,
+// mutations, generated packets, every value of the first header octet per class), built through the API, edited with setters.
+static const KDesc* kdesc_of(const PDU* p) { for (const KDesc& k : Ks) if (!k.cacher && k.ti && *k.ti == typeid(*p)) return &k; return nullptr; }
+static void check_layer(PDU* l, const std::string& how) {
+    std::string kn = vf::demangle(typeid(*l).name()); if (kn.compare(0, 6, "Tins::") == 0) kn = kn.substr(6);
+    cnt("layers_checked"); sig(mix(fnv(kn), (u64)l->pdu_type()));
+    for (const TDesc& t : Ts) {
+        bool really = t.dyn(l) != nullptr;
+        const std::string sd = (t.dyn_cached && t.dyn_cached(l)) ? "cacher-alias/" : "state-dependent/";     // T = PDUCacher<X> asked of an X: the listed design-level finding, same key as in the pairs sweep
+        if (l->matches_flag(t.flag)) { if (!really) { violation("find_pdu/" + sd + "K=" + kn + ",T=" + t.name, "find_pdu<" + t.name + "> succeeds on a " + kn + " object (" + how + ") that is not a " + t.name); continue; } cnt("find_succeeded"); if (!l->inner_pdu() && t.find(l) != t.dyn(l)) violation("find_pdu-address/K=" + kn + ",T=" + t.name, "find_pdu returned a different address than dynamic_cast (" + how + ")"); }
+        if (t.flag == l->pdu_type()) { if (!really) { violation("tins_cast/" + sd + "K=" + kn + ",T=" + t.name, "tins_cast<" + t.name + "*> succeeds on a " + kn + " object (" + how + ") that is not a " + t.name); continue; } cnt("cast_succeeded"); if (t.cast(l) != t.dyn(l)) violation("tins_cast-address/K=" + kn + ",T=" + t.name, "tins_cast returned a different address than dynamic_cast (" + how + ")"); }
+        cnt("pairs");
+    }
+    if (const KDesc* kd = kdesc_of(l)) if (kd->find_own) {
+        cnt("own_class_checks");
+        if (!l->matches_flag(l->pdu_type())) violation("find-own-class/state-dependent/K=" + kn, "an object does not match its own pdu_type() (" + how + ")");
+        else { if (kd->find_own(l) != kd->dyn_own(l)) violation("find-own-class/state-dependent/K=" + kn, "find_pdu<K>(k) != &k for an object of exact class K (" + how + ")");
+               if (kd->cast_own(l) != kd->dyn_own(l)) violation("cast-own-class/state-dependent/K=" + kn, "tins_cast<K*>(&k) != &k for an object of exact class K (" + how + ")"); }
+    }
+}
+static void check_object(PDU* root, const std::string& how) { cnt("objects"); u32 depth = 0; for (PDU* l = root; l && depth < 24; l = l->inner_pdu(), ++depth) check_layer(l, how); }
+static void run_objects(long idx, Rng& r) {
+    // (a) per class: default serialization with every value of the first octets, parsed back through the same class
+    if ((size_t)idx < Ks.size()) {
+        const KDesc& kd = Ks[idx]; if (kd.cacher) return;
+        std::unique_ptr<PDU> k(kd.make()); if (!k) return;
+        Bytes base; try { if (!dynamic_cast<IP*>(k.get())) base = k->serialize(); } catch (...) {}
+        if (dynamic_cast<IP*>(k.get())) { IP ip("1.2.3.4", "4.3.2.1"); base = ip.serialize(); }
+        describe_case("objects: first-octet sweep K=" + kd.name);
+        for (u32 pos = 0; pos < 4 && pos < base.size(); ++pos) for (u32 v = 0; v < 256; ++v) {
+            Bytes b = base; b[pos] = (u8)v; if (b.size() < 64) b.resize(b.size() + 32, 0);
+            std::unique_ptr<PDU> p; try { ExactBuf eb(b); p.reset(kd.from_bytes(eb.data(), (u32)b.size())); } catch (const exception_base&) { cnt("first_octet_rejected"); continue; }
+            if (!p) break;
+            cnt("first_octet_objects"); check_object(p.get(), "parsed with octet " + std::to_string(pos) + " = " + std::to_string(v));
+        }
+        // setters that exist on whole families
+        if (Dot11* d = dynamic_cast<Dot11*>(k.get())) for (u32 ty = 0; ty < 4; ++ty) for (u32 st = 0; st < 16; ++st) { d->type(ty); d->subtype(st); cnt("dot11_type_subtype_objects"); check_object(d, "type(" + std::to_string(ty) + ") subtype(" + std::to_string(st) + ")"); std::unique_ptr<PDU> c(d->clone()); check_object(c.get(), "clone after type/subtype setters"); }
+        return;
+    }
+    // (b) API-built packets, (c) parsed seeds / mutations / generated inputs
+    if (idx % 2 == 0) { PktGen g(r); std::unique_ptr<PDU> p(g.packet()); describe_case("objects: built " + g.trace); check_object(p.get(), "built: " + g.trace); cnt("built_objects"); return; }
+    std::vector<size_t> pe; for (size_t i = 0; i < entries.size(); ++i) if (entries[i].ispdu) pe.push_back(i);
+    const Entry& e = entries[pe[(idx / 2) % pe.size()]];
+    auto one = [&](const Bytes& in, const char* how) {
+        describe_case(std::string("objects: parsed entry=") + e.name + " how=" + how + " hex=" + hex(in, 1024));
+        std::unique_ptr<PDU> p; try { ExactBuf buf(in); p.reset(e.parse(buf.data(), (u32)in.size())); } catch (...) { return; }
+        if (!p) return; cnt("parsed_objects"); check_object(p.get(), std::string("parsed by ") + e.name + " from " + hex(in, 120));
+    };
+    u32 op = r.below(3);
+    if (op == 0 && !seeds.empty()) { const Bytes& s = seeds[r.below((u32)seeds.size())].b; one(s, "seed"); for (int i = 0; i < 10; ++i) one(mutate(s, r), "mut-seed"); }
+    else if (op == 1) { const Bytes& s = accepted_seed_for(e, r); one(s, "seed"); for (int i = 0; i < 20; ++i) one(mutate(s, r), "mut-seed"); }
+    else { Bytes s = generated_for(e, r, nullptr); one(s, "gen"); for (int i = 0; i < 20; ++i) one(mutate(s, r), "mut-gen"); }
+}
+
 int main(int argc, char** argv) {
     build_tables();
-    return vf::run(argc, argv, "C13", [&](long idx, Rng&) {
+    register_all();
+    return vf::run(argc, argv, "C13", [&](long idx, Rng& r) {
+        if (st().a.mode == "objects") { run_objects(idx, r); return; }
         if (idx == 0) { cnt("K_classes", Ks.size()); cnt("T_classes", Ts.size()); cnt("abstract_classes_skipped_as_K", abstract_or_unmakeable.size());
             std::string ks; for (auto& k : Ks) if (!k.cacher) ks += k.name + " "; sample("K (plus PDUCacher<K> of each): " + ks);
             std::string ts; for (auto& t : Ts) ts += t.name + " "; sample("T: " + ts); }
         if ((size_t)idx < Ks.size()) run_K(Ks[idx]);
-    });
+    }, [&]() { load_seeds(st().a.get("corpus")); });
 }
